@@ -234,9 +234,10 @@ def gen(rng, tier):
         return gen_long_src_case(rng)
     if r_ < 0.04:
         return gen_spill_case(rng)
-    if rng.random() < 0.2:
-        return gen_gtf_case(rng, tier)
-    return gen_case(rng, tier)
+    c = gen_gtf_case(rng, tier) if rng.random() < 0.2 else gen_case(rng, tier)
+    if not c["cfg"].get("memory") and rng.random() < 0.12:
+        c["cfg"]["symlink"] = True  # the database is reached through a symbolic link (current.db -> store/<name>)
+    return c
 
 
 # ----------------------------------------------------------------------------- execution
@@ -567,6 +568,9 @@ class Hist(object):
                    "kw": dict(op["kw"], keep_order=self.cfg.get("keep_order", False), **self.fmt_kw())}
             if self.cfg.get("id_spec") is not None:
                 req["id_spec"] = self.cfg["id_spec"]
+            if self.cfg.get("symlink") and not self.mem:
+                self.call({"op": "symlink", "link": self.dbn, "target": "store/real.db"})
+                self.probes["database_behind_symlink"] = 1
             r = self.call(req)
             self.points[j] = r["points"]
             try:
